@@ -65,4 +65,31 @@ def titlePad : String := String.ofList (List.replicate 100 ' ')
 def tabeamSem (I : String → Nat → Rat → Rat) (title : String) (t : TabeamFile) : List (String × List (Option String × Rat)) :=
   [("%s%s\n", [(some title, 0), (some titlePad, 0)]), ("%d\n", [(none, (t.declared : Rat))])] ++ t.blocks.flatMap (tblockSem I)
 
+/-! ### meaning of a whole setfl file of the model (used by `C03_code_write_alloy` / `C04_code_write_fs`) -/
+
+/-- `_writeSetFLHeader`: exactly three comment lines (missing ones empty, further ones dropped) -/
+def pad3 (c : List String) : List String := (c ++ ["", "", ""]).take 3
+
+/-- the five header lines: the three comments (one `print` joined with the line separator), `ntypes` and the element names, the two grids and the cutoff -/
+def setflHeaderSem (comments : List String) (cutoff : Rat) (f : SetflFile) : List (String × List (Option String × Rat)) :=
+  [ ("<os.linesep>".intercalate ((pad3 comments).map fun _ => "%s") ++ "\n", (pad3 comments).map fun c => (some c, (0 : Rat))),
+    (" ".intercalate ("%d" :: f.names.map fun _ => "%s") ++ "\n", (none, (f.ntypes : Rat)) :: f.names.map fun n => (some n, (0 : Rat))),
+    ("%d  %20.16e %d  %20.16e  %20.16e\n", [(none, (f.nrho : Rat)), (none, f.drho), (none, (f.nr : Rat)), (none, f.dr), (none, cutoff)]) ]
+
+/-- per element its line, its embedding values, its density values (one list, or one per element for Finnis-Sinclair); then the pair blocks `r*phi` -/
+def setflBodySem (I : String → Nat → Rat → Rat) (f : SetflFile) : List (String × List (Option String × Rat)) :=
+  (f.elements.flatMap fun b =>
+    [("%d %20.16e %20.16e %s\n", [(none, (b.z : Rat)), (none, b.mass), (none, b.a0), (some b.lat, 0)])] ++
+    (b.embed.map fun s => numLine (slotVal I "value" s)) ++ (b.dens.flatten.map fun s => numLine (slotVal I "value" s))) ++
+  (f.pairs.flatten).map (fun s => numLine (pairSlotVal I true s))
+
+def setflSem (I : String → Nat → Rat → Rat) (comments : List String) (cutoff : Rat) (f : SetflFile) : List (String × List (Option String × Rat)) :=
+  setflHeaderSem comments cutoff f ++ setflBodySem I f
+
+/-- `if not cutoff: cutoff = nr*dr` -/
+def effCutoff (cutoff : Option Rat) (nr : Nat) (dr : Rat) : Rat :=
+  match cutoff with
+  | some c => if c = 0 then (nr : Rat) * dr else c
+  | none => (nr : Rat) * dr
+
 end Atsim.TokSem
